@@ -233,7 +233,7 @@ Proof. apply reach_ind'; [apply inv1_init|]. intros; eapply inv1_step; eauto. Qe
 
 Definition phase_of (rc : bool) (s : st) : phase :=
   match s_pc s with
-  | SIdle | SInit | SFactory => PStart (s_att s)
+  | SIdle | SInit | SClear | SFactory => PStart (s_att s)
   | SCtxChk | SSleep | SReset | SDone => PDisc (s_att s)
   | SRet _ => if rc then PDisc (s_att s) else PAtt (s_att s)
   | SFin => PEnd (s_att s)
@@ -327,7 +327,7 @@ Definition mu_s (sc : script) (s : st) : nat :=
   let nxt := a_items (sc (S (s_att s))) in
   match s_pc s with
   | SFin => 0 | SRet _ => 1 | SDone => 2 | SCtxChk => 3 | SDisc => 4
-  | SRunClose | SSubFailClose => 5
+  | SRunClose | SSubFailClose | SInstClosed => 5
   | SSyncEnd _ => 6
   | SChk i => rw (skipn (S i) its) + 1
   | SDeliver i j n => (n - j) + 2 + rw (skipn (S i) its)
@@ -335,8 +335,8 @@ Definition mu_s (sc : script) (s : st) : nat :=
   | SRecv i => rw (skipn i its)
   | SInstall2 => rw its + 1 | SInstall => rw its + 2 | SImplSubChk => rw its + 3
   | SImplSub => rw its + 4 | SFacChk => rw its + 5 | SFactory => rw its + 6
-  | SInit => rw its + 7 | SIdle => rw its + 8
-  | SReset => rw nxt + 7 | SSleep => rw nxt + 8
+  | SClear => rw its + 7 | SInit => rw its + 8 | SIdle => rw its + 9
+  | SReset => rw nxt + 8 | SSleep => rw nxt + 9
   end.
 
 Definition mu_c (s : st) : nat :=
@@ -393,7 +393,7 @@ Definition inv2 (rc : bool) (s : st) : Prop :=
   (rc = true -> match s_pc s with SRet _ | SFin => r_subdone s = SDClosed | _ => True end) /\
   (s_pc s = SInstall2 -> b_mu s = true) /\ (c_pc s = CBaseHold -> b_mu s = true) /\
   (s_pc s = SInstall2 -> c_pc s <> CBaseHold) /\
-  (s_pc s = SIdle -> r_subdone s = SDNil) /\ (c_wait s = true -> r_subdone s <> SDNil).
+  (s_pc s = SIdle -> r_subdone s = SDNil) /\ (rc = true -> c_wait s = true -> r_subdone s <> SDNil).
 
 Lemma inv2_step rc sc s l s1 : inv2 rc s -> In (l, s1) (step rc sc s) -> inv2 rc s1.
 Proof.
@@ -441,7 +441,7 @@ Proof.
   specialize (I1 eq_refl).
   destruct s_pc; cbn in Hs; try discriminate; stuck_cases Hs;
   destruct c_pc; cbn in Hc; try discriminate; stuck_cases Hc;
-  cbn in *; intuition (try congruence; try discriminate); subst; cbn in *; try discriminate.
+  cbn in *; rewrite ?andb_true_r in *; intuition (try congruence; try discriminate); subst; cbn in *; try discriminate.
 Qed.
 
 Lemma closing_exec sc s n s' :
